@@ -17,6 +17,7 @@
 package main
 
 import (
+	"encoding/json"
 	"fmt"
 	"runtime"
 	"strconv"
@@ -145,6 +146,9 @@ func run(c *vf.Ctx) {
 	c.Require("ev_link_triggers_overlapping_linkto", 20)
 	c.Require("ev_max_rounds", 50)
 	c.Require("ev_reentrant_scenarios", 20000)
+	c.Require("ev_redundant_histories_with_redundant_unhook", 10000)
+	c.Require("pr_redundant_histories_with_repeated_unsubscribe", 1000)
+	c.Require("vn_seq_redundant_deregister_comparisons", 1000)
 	c.Require("pr_callbacks_registered_during_trigger", 100)
 	c.Require("race_children_run", 3)
 	c.Assume("sync/atomic counter used as logical clock is linearizable; a goroutine shown in state `select` inside valuenotifier.(*Listener).Wait by runtime.Stack(all) is parked; the Go race detector reports only real races")
@@ -217,11 +221,27 @@ func replay(c *vf.Ctx) {
 		out := x.run(r.History)
 		rep := newReporter(c)
 		vnJudge(c, rep, r.History, out, false)
+		vnRedundantCheck(c, rep, x, r.History, out[len(out)-1])
 		fmt.Printf("replayed history %s -> outcomes %v\n", histString(r.History), out)
 		c.Count("evaluations", 1)
 	case "vn-gate":
 		vnGateChild(c, r.Scenario)
 	case "conc":
+		if r.Round == "redundant" {
+			// deterministic single-goroutine history: re-executed in this process
+			b, _ := json.Marshal(r.Detail)
+			switch r.Child {
+			case "event":
+				var h evHistReplay
+				json.Unmarshal(b, &h)
+				(&evEnv{c: c, rep: newReporter(c)}).runEvHist(h.Variant, h.History, true)
+			case "promise":
+				var h prHistReplay
+				json.Unmarshal(b, &h)
+				runPrHist(c, newReporter(c), h.WithValue, h.History, false)
+			}
+			return
+		}
 		// re-run the recorded round (same PRNG stream, same build flavour) in a child; the
 		// schedule is not recorded, so the round is repeated a fixed number of times
 		seed := r.Seed
